@@ -14,7 +14,7 @@ RULE = ("(i) the likelihood table function and the per-point function on synthet
         "traced runs; non-trivial = distinct synthetic model with NW>=2 or traced run with >=1 table checked; distinct by hash")
 ASSUMPTIONS = ["tolerance = 64 eps (|logdet| + NW log 2pi + (NW+2) sum|d||Theta||d| + NW cond(Theta)); matrices with cond>1e10 are skipped",
                "mpmath (80 digits) arbitrates a sample of entries"]
-SHARD_TIMEOUT = {"quick": 900, "thorough": 3400}
+SHARD_TIMEOUT = {"quick": 300, "thorough": 3400}
 MIX = {"single:small": 3, "single:general": 2, "single:hostile": 2, "joint:joint": 1}
 PROPS = ("C05",)
 SIZES = [(1, 1), (2, 1), (5, 5), (12, 3), (40, 10), (100, 10), (200, 10)]
